@@ -22,16 +22,24 @@ pub struct Domain {
     pub big_pad: bool,
     pub close_weight: u32,
     pub eager_poll: f64,
+    /// probability that a send carries a further pipelined request
+    pub pipeline: f64,
+    /// weight of answering a held request (lower = more requests stay in flight)
+    pub respond_weight: u32,
+    /// large responses to clients that have stopped reading
+    pub big_to_nonreaders: bool,
 }
 
 pub fn domain(prop: &str, small: bool) -> Domain {
     let d = Domain { name: "C08", nclients: (1, 4), good: 99, steps: 60, kill: false, flush: true, setlimit: false,
-                     big_pad: false, close_weight: 0, eager_poll: 0.5 };
+                     big_pad: false, close_weight: 0, eager_poll: 0.5, pipeline: 0.2, respond_weight: 5, big_to_nonreaders: false };
     match prop {
         "C07" => Domain { name: "C07", nclients: (3, 5), good: 0, close_weight: 6, flush: true, ..d },
         "C08" => d,
         "C08big" => Domain { name: "C08big", nclients: (1, 2), big_pad: true, flush: false, steps: 120, ..d },
         "C09" => Domain { name: "C09", nclients: (2, 4), good: 1, close_weight: 4, ..d },
+        "C09slow" => Domain { name: "C09slow", nclients: (2, 3), good: 1, close_weight: 1, big_to_nonreaders: true, flush: false, steps: 50, ..d },
+        "C07pipe" => Domain { name: "C07pipe", nclients: (1, 2), good: 0, close_weight: 1, pipeline: 0.7, respond_weight: 2, eager_poll: 0.35, flush: false, ..d },
         "C10" => Domain { name: "C10", nclients: if small { (4, 6) } else { (11, 13) }, good: 0, close_weight: 5, steps: if small { 70 } else { 140 }, ..d },
         "C18" => Domain { name: "C18", nclients: (1, if small { 4 } else { 11 }), good: 0, kill: true, close_weight: 1, ..d },
         "C04" => Domain { name: "C04", nclients: (1, 3), good: 0, setlimit: true, close_weight: 1, ..d },
@@ -231,8 +239,10 @@ pub fn history(dom: &Domain, seed: u64, hist: u64, sock_dir: &str, out: &mut dyn
         let held_clients: Vec<usize> = d.held.iter().map(|h| h.0).collect();
         if !held_clients.is_empty() {
             let c = *held_clients.choose(&mut rng).unwrap();
-            let pad = if dom.big_pad && rng.gen_bool(0.5) { rng.gen_range(100_000..400_000) } else if rng.gen_bool(0.2) { rng.gen_range(0..3000) } else { 0 };
-            cands.push((if settling { 10 } else { 5 }, json!({"e": "respond", "c": c, "k": rng.gen_range(0..8), "pad": pad, "code": if rng.gen_bool(0.1) { 204 } else { 200 }})));
+            let nonreader = c >= 1 && c <= nclients && cs[c - 1].stop_reading;
+            let pad = if (dom.big_pad && rng.gen_bool(0.5)) || (dom.big_to_nonreaders && nonreader) { rng.gen_range(250_000..600_000) }
+                      else if rng.gen_bool(0.2) { rng.gen_range(0..3000) } else { 0 };
+            cands.push((if settling { 10 } else { dom.respond_weight }, json!({"e": "respond", "c": c, "k": rng.gen_range(0..8), "pad": pad, "code": if rng.gen_bool(0.1) { 204 } else { 200 }})));
         }
         if dom.flush && !settling {
             cands.push((1, json!({"e": "flush"})));
@@ -277,9 +287,10 @@ pub fn history(dom: &Domain, seed: u64, hist: u64, sock_dir: &str, out: &mut dyn
                     let lim = if dom.setlimit && rng.gen_bool(0.5) { cur_limit.max(limit).min(40) } else { cur_limit.min(limit) };
                     let mut pieces = request_pieces(&mut rng, c, k, good, lim);
                     // sometimes pipeline a second request into the same send
-                    if rng.gen_bool(0.2) {
+                    while rng.gen_bool(dom.pipeline) && pieces.len() < 6 {
                         cs[c - 1].nreq += 1;
-                        let more = request_pieces(&mut rng, c, k + 1, good, cur_limit.min(limit));
+                        let kk = cs[c - 1].nreq;
+                        let more = request_pieces(&mut rng, c, kk, good, cur_limit.min(limit));
                         let mut joined: Vec<u8> = pieces.pop().unwrap();
                         joined.extend(&more[0]);
                         pieces.push(joined);
@@ -293,7 +304,7 @@ pub fn history(dom: &Domain, seed: u64, hist: u64, sock_dir: &str, out: &mut dyn
             "connect" => {
                 d.step(&chosen, out);
                 cs[c - 1].connected = true;
-                if c > dom.good && rng.gen_bool(0.15) {
+                if c > dom.good && rng.gen_bool(if dom.big_to_nonreaders { 0.7 } else { 0.15 }) {
                     cs[c - 1].stop_reading = true;
                 }
             }
@@ -320,6 +331,19 @@ pub fn history(dom: &Domain, seed: u64, hist: u64, sock_dir: &str, out: &mut dyn
     }
     d.step(&json!({"e": "fdcount"}), out);
     writeln!(out, "{}", json!({"e": "endhist", "hist": hist})).unwrap();
+}
+
+/// Replays every history of an NDJSON file (one JSON array of steps per line).
+pub fn replay_many(path: &str, sock_dir: &str, out: &mut dyn Write) {
+    for line in std::fs::read_to_string(path).unwrap_or_default().lines() {
+        if line.trim().is_empty() {
+            continue;
+        }
+        if let Ok(v) = serde_json::from_str::<Value>(line) {
+            replay(&v, sock_dir, out);
+            out.flush().unwrap();
+        }
+    }
 }
 
 /// Replays a list of concrete steps (a violation replay file).
